@@ -18,3 +18,9 @@ CHECKS["C17"] = dict(
     text="TLC explores every sequence of the 20 modelled columnfile operations (addcolumn/setcolumn/__setitem__/__setattr__ scalar+array/in-place/filter/removerows/sortby/reorder/copy/copyrows mask+index+slice/get_bigarray/set_bigarray list+ndarray/user writes through a kept reference) to depth 3 (quick) / 4 with replay and 5 invariants-only (thorough), checking Rectangular, ViewsAgree, SameStorage, CopiesDisjoint and the action property RowOpsUniform on a model whose state is the alias structure (buffers, __data, attributes, list/array mode). Every transition TLC generates (representative path of each distinct state + one operation) and thousands of simulated behaviours of depth 9-13 are executed on a real columnfile started four ways; contents of all views, nrows/ncols/titles, list/array mode and the canonical memory-region numbering of every array must equal the model state, and the property clauses are also judged directly on the real object. BUG_* configurations show TLC finding each of the four repaired defects; the AllowAlias configuration finds the recorded aliasing finding, which is replayed and matched structurally.",
     note="Trusted: the projection in harness/props/c17.py (memory regions via __array_interface__/np.shares_memory), numpy, TLC. Bounds: 3 titles, <=3 rows, values 0..2 as float64; PandasColumnfile not covered (pandas absent). Beyond the depth bound behaviours are sampled (-simulate), not enumerated.",
 )
+
+CHECKS["C11"] = dict(
+    technique="statement-level TLA+ transcription of connectedpixels / sparse_connectedpixels / splat + disjoint set (ConnPix, SparseCP, Dset) model-checked on every small image; exact labels replayed into the real kernels (normal + ASan build); certificates of large images validated by TLC (TraceCC)",
+    text="TLC runs the transcribed kernels on every binary image of 2x2..3x4/4x3 (quick) and 4x4 (thorough), both connectivities, and on every absent/listed/above ternary image for the sparse and splat kernels, checking in every state index bounds and the disjoint-set invariant, and at the end that labels are 0 exactly off the above-threshold pixels, that the label partition equals the connected components under an independent closure-of-adjacency definition, and that labels are 1..n in raster order. Every enumerated image is then executed through cImageD11.connectedpixels, labelimage.labelpeaks, sparse_connectedpixels, sparse_connectedpixels_splat and sparseframe.sparse_connected_pixels with poisoned output buffers and must reproduce the model's label array element for element, on the normal and the sanitizer build. Images beyond TLC's scope (to 512x512, checkerboards/combs/spirals, >16384 provisional labels forcing realloc) are labelled by the real kernels and a spanning-forest certificate is validated by TLC against the local conditions of TraceCC.tla; dense, sparse and splat outputs must coincide.",
+    note="Trusted: TLC, the recorder's BFS forest (a wrong forest can only cause rejection), numpy. Model capacity CAP=4 stands for 16384 (same growth rule). SparseScan.cplabel not driven. Float threshold comparison exercised only at below/equal/above values.",
+)
